@@ -174,15 +174,17 @@ def model_check(mod, cfgs, workers=8, timeout=900):
     """Model-check every cfg; a failure here is a *model* finding: ToolError (exit 2)."""
     res = []
     for cfg in cfgs:
+        root = None
         if isinstance(cfg, dict):
             name, w, to = cfg["cfg"], cfg.get("workers", workers), cfg.get("timeout", timeout)
+            root = cfg.get("tla")  # a root module other than <Module>.tla (it EXTENDS it)
         else:
             name, w, to = cfg, workers, timeout
-        r = run_tlc(mod, name, workers=w, timeout=to)
+        r = run_tlc(mod, name, workers=w, timeout=to, tla=root)
         if not r["ok"] and (r["rc"] in (137, 143, -9, -15) or any("Shutdown in progress" in e for e in r["errors"])
                             or (r["rc"] != 0 and not r["errors"])):
             log("  MC %s/%s: TLC died (rc=%s); retrying once" % (mod["module"], name, r["rc"]))
-            r = run_tlc(mod, name, workers=w, timeout=to)
+            r = run_tlc(mod, name, workers=w, timeout=to, tla=root)
         r["cfg"] = name
         res.append(r)
         log("  MC %s/%s: %d states generated, %d distinct, %.1fs, %s" % (
@@ -219,7 +221,7 @@ def generate(mod, gens, seed, use_cache=True):
                 sim = dict(num=g.get("num", 1000), depth=g.get("depth", 50))
             r = run_tlc(mod, g["cfg"], workers=g.get("workers", 1), timeout=g.get("timeout", 900),
                         simulate=sim, seed=(seed if mode == "simulate" else None),
-                        capture_traces=tmp)
+                        capture_traces=tmp, tla=g.get("tla"))
             if r["errors"] or r["rc"] not in (0,):
                 try:
                     os.unlink(tmp)
